@@ -17,4 +17,6 @@ mkdir -p .cache
 ( cd harness/storage_harness && RUSTFLAGS="--cfg gecs_verif" cargo build --offline --profile dev --features events --target-dir ../../.cache/target-events ) || echo "setup: harness (dev, events) build failed"
 ( cd harness/storage_harness && RUSTFLAGS="--cfg gecs_verif" cargo build --offline --profile dev --features wrapping_version --target-dir ../../.cache/target-wrapping_version ) || echo "setup: harness (dev, wrapping) build failed"
 ( cd harness/storage_harness && RUSTFLAGS="--cfg gecs_verif" cargo build --offline --profile dev --features comps32 --target-dir ../../.cache/target-comps32 ) || echo "setup: harness (dev, comps32) build failed"
+[ -f harness/fill_probe/Cargo.lock ] || cp /repo/Cargo.lock harness/fill_probe/Cargo.lock
+( cd harness/fill_probe && cargo build --offline --release --target-dir ../../.cache/target-fill ) || echo "setup: fill_probe build failed"
 echo "setup done"
